@@ -121,11 +121,22 @@ Qed.
 (* ---------- object streams ---------- *)
 Definition is_objstm (o : obj) : bool := match o with OStream d _ => has_type d N_ObjStm | _ => false end.
 
+Lemma namef_norm st x : namef (norm_len st x) = namef x.
+Proof. destruct x; cbn [norm_len]; destruct (skip_object st _); reflexivity. Qed.
+
+Lemma dict_get_norm st d k : dict_get (norm_dict st d) k = option_map (norm_len st) (dict_get d k).
+Proof.
+  induction d as [|[k0 x] d IH]; [reflexivity|]. cbn [norm_dict map fst snd dict_get].
+  destruct (bytes_eqb k0 k); [reflexivity | exact IH].
+Qed.
+
 Lemma is_objstm_norm st o : is_objstm (norm_len st o) = is_objstm o.
 Proof.
   destruct o as [|b|z|r|n|s h|l|d|d c|i g]; cbn [norm_len]; try (destruct (skip_object st _); reflexivity).
   destruct (skip_object st (OStream d c)); [reflexivity|].
-  unfold set_content, is_objstm, has_type. rewrite dget_set_other by (cbv; discriminate). reflexivity.
+  unfold set_content, is_objstm. apply has_type_view.
+  rewrite dget_set_other by (cbv; discriminate). fold (norm_dict st d). rewrite dict_get_norm.
+  destruct (dict_get d K_Type) as [y|]; [|reflexivity]. cbn [option_map]. rewrite namef_norm. reflexivity.
 Qed.
 
 Lemma has_objstm_norm st m : has_objstm (norm_objs st m) = has_objstm m.
